@@ -4,6 +4,7 @@ import re
 import vlib
 import recvlib
 import convlib
+import recvprop
 
 
 def gen_cases(rng, tier):
@@ -17,10 +18,8 @@ def gen_cases(rng, tier):
             src = recvlib.gen_recv_item(rng, x, "x") or "x()"
             k = rng.choice([0, 1, 1, 1, 2, 2, 3, 4, 6, 8])
             src = recvlib.inject_mistakes(rng, src, k)
-            words = set(re.findall(r"[A-Za-z_][A-Za-z0-9_:]*", src))
-            cases.append({"target": x["name"], "src": src, "entry": "meta", "injected": k,
-                          "pairs": sorted((w, n) for w in words for n in names)[:400]})
-    return cases
+            cases.append({"target": x["name"], "src": src, "entry": "meta", "injected": k})
+    return recvprop.all_with_pairs(cases)
 
 
 def run(tier, seed, replay=None):
